@@ -106,6 +106,8 @@ def main():
             try:
                 if c.call is not None:
                     box["ret"] = call_spec(c.call, ns)
+                elif isinstance(target, type) and c.kwargs_call:
+                    box["ret"] = target(**{p: ns[p] for p in c.args})
                 elif isinstance(target, type):
                     box["ret"] = target(*call_args)
                 elif c.kwargs_call:
